@@ -137,6 +137,7 @@ def check(A):
         R.handle_connect_rules(A, fl, 'C18')
         S.upgrade_handshake(A, fl, 'C18')
         S.who_may_rules(A, fl, 'C18')
+        S.upgrade_exit_state(A, fl, 'C18')
         if A.tier == 'thorough':
             S.poll_rules(A, fl, 'C18')
             S.upgrade_exit_state(A, fl, 'C18')
